@@ -229,6 +229,22 @@ class Check:
         }
         if bad:
             self.oblige(f"no Admitted/Axiom in {propfile}", False, str(bad))
+        if ok and self.tier == "thorough":
+            # independent re-check of the compiled theorem file and everything it depends on
+            mod = "Verif." + os.path.basename(propfile)[:-2]
+            with Lock():
+                rc2, out2 = run(["timeout", "3000", "coqchk", "-silent", "-o"] + COQ_FLAGS + [mod],
+                                cwd=COQ, timeout=3100)
+            m = re.search(r"\* Axioms:\s*(.*?)\n\s*\n\s*\*", out2, re.S)
+            axioms = m.group(1).strip() if m else "?"
+            flags = {k: (re.search(r"\* " + re.escape(k) + r":\s*(.*?)\n", out2) or [None, "?"])[1]
+                     for k in ("Constants/Inductives relying on type-in-type",
+                               "Constants/Inductives relying on unsafe (co)fixpoints",
+                               "Inductives whose positivity is assumed")}
+            clean = rc2 == 0 and axioms == "<none>" and all(v == "<none>" for v in flags.values())
+            self.oblige(f"coqchk -o re-checks {mod} and all its dependencies: no axioms, no assumed "
+                        f"positivity / guardedness / type-in-type", clean, out2[-1500:])
+            self.extra["coqchk"] = {"axioms": axioms, **flags}
         return ok
 
     # ---- cases ----
